@@ -19,7 +19,8 @@ fn float_to_microsecond<V: ValT>(v: &V) -> Result<i64, Error<V>> {
     if us.is_nan() {
         return Err(Error::str(format_args!("cannot convert {v} to time")));
     }
-    Ok(us as i64)
+    // round to the nearest microsecond, because e.g. 1.000001 * 1e6 is 1000000.9999999999
+    Ok(us.round() as i64)
 }
 
 /// Convert a date-time pair to a UNIX epoch timestamp.
